@@ -34,7 +34,10 @@
 (*   in_window_sofar: credited again when read) | "eof_sent_stops_credit"            *)
 (*   (_check_add_window also returns 0 once the side sent its own EOF) |             *)
 (*   "done_always" (HoldBack: _send_done also runs on the exits of _send that never  *)
-(*   counted a message: raise / return 0 / timeout)                                  *)
+(*   counted a message: raise / return 0 / timeout) | "adjust_notify_one"            *)
+(*   (_window_adjust wakes one waiter) | "set_closed_no_notify" (_set_closed wakes   *)
+(*   nobody: transport loss leaves parked writers asleep) | "wait_full_message"      *)
+(*   (the sender waits until the window covers the whole next message)               *)
 EXTENDS Integers, Sequences, FiniteSets, TLC
 
 CONSTANTS UsersA, UsersB,   \* user threads of each side (strings)
@@ -91,6 +94,8 @@ VARIABLES
   inflight, ctlq,
   \* ---- combine_stderr flag per side (set_combine_stderr(True))
   comb,
+  \* ---- threads waiting on out_buffer_cv that have been notified and not yet run again
+  woken,
   \* ---- user threads
   pc, op, left, pend, held, calls, ctx, last, spins,
   \* ---- transport thread per side, wires
@@ -104,7 +109,7 @@ tr   == <<tpc, tpend>>
 eobs == <<sent, granted, adjSent, nEof, nClose, afterCtl, bigMsg, lateEmit>>
 robs == <<consumed, leaked, closeSeen>>
 par  == <<win, thresh, maxpkt, peermax>>
-hb   == <<inflight, ctlq, comb>>
+hb   == <<inflight, ctlq, comb, woken>>
 vars == <<par, chan, hb, thr, tr, wire, eobs, robs>>
 
 (* both CLOSEs exchanged, seen from X: its own CLOSE is on the wire and the peer's was processed *)
@@ -141,7 +146,7 @@ InitRest ==
   /\ eofSent = [X \in Sides |-> FALSE] /\ eofRecv = [X \in Sides |-> FALSE]
   /\ closed = [X \in Sides |-> FALSE] /\ pclosed = [X \in Sides |-> FALSE] /\ linked = [X \in Sides |-> TRUE]
   /\ alive = [X \in Sides |-> TRUE] /\ sofar = [X \in Sides |-> 0]
-  /\ inflight = [X \in Sides |-> 0] /\ ctlq = [X \in Sides |-> <<>>] /\ comb = [X \in Sides |-> FALSE]
+  /\ inflight = [X \in Sides |-> 0] /\ ctlq = [X \in Sides |-> <<>>] /\ comb = [X \in Sides |-> FALSE] /\ woken = {}
   /\ buf = [X \in Sides |-> [out |-> 0, err |-> 0]]
   /\ pc = [t \in Threads |-> "idle"] /\ op = [t \in Threads |-> "none"] /\ left = [t \in Threads |-> 0]
   /\ pend = [t \in Threads |-> <<>>] /\ held = [t \in Threads |-> 0] /\ calls = [t \in Threads |-> 0]
@@ -178,12 +183,14 @@ Chunk(t, X) == IF Mut = "ignore_maxpkt" THEN Min(left[t], outwin[X]) ELSE Min(Mi
 DataMsg(t, k) == IF op[t] \in ErrOps THEN Msg("EXT", k, ctx[t].code) ELSE Msg("DATA", k, 0)
 
 \* exits of _send on which no message was built: nothing to undo - unless Mut = "done_always" runs _send_done there too
-ExitHB(X) == IF Mut = "done_always" /\ HoldBack /\ ~FixRace
+ExitHB(t) == LET X == Side(t) IN
+             /\ woken' = woken \ {t}
+             /\ IF Mut = "done_always" /\ HoldBack /\ ~FixRace
                THEN /\ inflight' = [inflight EXCEPT ![X] = @ - 1] /\ comb' = comb
                     /\ IF inflight[X] = 1 /\ ctlq[X] # <<>>
                          THEN Emit(X, ctlq[X], FALSE) /\ ctlq' = [ctlq EXCEPT ![X] = <<>>]
                          ELSE NoEmit /\ ctlq' = ctlq
-               ELSE UNCHANGED hb /\ NoEmit
+               ELSE UNCHANGED <<inflight, ctlq, comb>> /\ NoEmit
 SendReturns0(t) ==      \* send() returns 0: closed or eof_sent seen inside _wait_for_send_window
   /\ IF op[t] \in AllOps
        THEN IF FixSendall
@@ -191,7 +198,7 @@ SendReturns0(t) ==      \* send() returns 0: closed or eof_sent seen inside _wai
               ELSE /\ pc' = [pc EXCEPT ![t] = "send_lock"] /\ last' = last      \* while s: sent = self.send(s)
                    /\ spins' = [spins EXCEPT ![t] = Min(@ + 1, SpinCap)]
        ELSE Finish(t, "ret0", left[t]) /\ spins' = spins
-  /\ UNCHANGED <<op, left, pend, held, calls, ctx, chan, tr, robs>> /\ ExitHB(Side(t))
+  /\ UNCHANGED <<op, left, pend, held, calls, ctx, chan, tr, robs>> /\ ExitHB(t)
 
 SendReserve(t) ==
   LET X == Side(t)  k == Chunk(t, X) IN
@@ -200,39 +207,52 @@ SendReserve(t) ==
   /\ IF FixRace
        THEN Emit(X, <<DataMsg(t, k)>>, ctx[t].rel) /\ pend' = pend /\ pc' = [pc EXCEPT ![t] = "send_done"]
        ELSE NoEmit /\ pend' = [pend EXCEPT ![t] = <<DataMsg(t, k)>>] /\ pc' = [pc EXCEPT ![t] = "send_emit"]
-  /\ inflight' = [inflight EXCEPT ![X] = IF HoldBack /\ ~FixRace THEN @ + 1 ELSE @] /\ ctlq' = ctlq /\ comb' = comb
+  /\ inflight' = [inflight EXCEPT ![X] = IF HoldBack /\ ~FixRace THEN @ + 1 ELSE @] /\ ctlq' = ctlq /\ comb' = comb /\ woken' = woken \ {t}
   /\ spins' = [spins EXCEPT ![t] = IF k = 0 THEN Min(@ + 1, SpinCap) ELSE @]      \* a chunk of 0 bytes: iteration without progress
   /\ UNCHANGED <<eofSent, eofRecv, closed, pclosed, linked, alive, sofar, buf, tmo>>
   /\ UNCHANGED <<op, held, calls, ctx, last, tr, robs>>
 
 SendRaise(t) == /\ Finish(t, "raised", left[t])
-                /\ UNCHANGED <<op, left, pend, held, calls, ctx, spins, chan, tr, robs>> /\ ExitHB(Side(t))
+                /\ UNCHANGED <<op, left, pend, held, calls, ctx, spins, chan, tr, robs>> /\ ExitHB(t)
 
+\* the window test of _wait_for_send_window: `out_window_size == 0`.  Mut = "wait_full_message": the sender waits until the
+\* window covers the whole next message min(size, max packet, initial window) ("silly window avoidance")
+Want(t) == LET X == Side(t) IN Min(Min(left[t], maxpkt[X]), win[Peer(X)])
+Insufficient(t) == IF Mut = "wait_full_message" THEN outwin[Side(t)] < Want(t) ELSE outwin[Side(t)] = 0
 SendEntry(t) ==
   LET X == Side(t) IN
   /\ pc[t] = "send_lock"
   /\ IF closed[X] THEN SendRaise(t)                               \* socket.error("Socket is closed")
      ELSE IF eofSent[X] THEN SendReturns0(t)
-     ELSE IF outwin[X] = 0
+     ELSE IF Insufficient(t)
        THEN IF tmo[X] = "nonblock" THEN SendRaise(t)              \* socket.timeout
             ELSE /\ pc' = [pc EXCEPT ![t] = "send_wait"]          \* out_buffer_cv.wait releases the lock
-                 /\ UNCHANGED <<op, left, pend, held, calls, ctx, last, spins, chan, hb, tr, robs>> /\ NoEmit
+                 /\ woken' = woken \ {t} /\ UNCHANGED <<inflight, ctlq, comb>>
+                 /\ UNCHANGED <<op, left, pend, held, calls, ctx, last, spins, chan, tr, robs>> /\ NoEmit
      ELSE SendReserve(t)
 
-\* out_buffer_cv is notified by _window_adjust, by _set_closed (close, peer CLOSE, transport loss) and - repaired setting -
-\* by _send_eof (shutdown_write / shutdown(2) from another thread); the woken sender re-checks under the lock.
-\* Mut = "no_eof_notify" is the tree before that repair: eof_sent alone wakes nobody, it is only seen after the next wake-up.
-WakeCond(t)  == outwin[Side(t)] > 0 \/ closed[Side(t)] \/ (Mut # "no_eof_notify" /\ eofSent[Side(t)])
-WakeGuard(t) == IF Mut = "wait_window_only" THEN outwin[Side(t)] > 0 ELSE WakeCond(t)
-\* the woken sender, still under the lock: window still 0 -> the check inside the loop (closed: return 0);
-\* window open -> it leaves the loop and RE-CHECKS closed / eof_sent before allocating (channel.py: "we have some window
+\* out_buffer_cv.notify_all() is called by _window_adjust, by _set_closed (close, peer CLOSE, transport loss via _unlink) and by
+\* _send_eof (shutdown_write / shutdown(2) / the EOF part of a close).  A notified waiter is in `woken` until it runs again.
+\* Mutations: "adjust_notify_one" (_window_adjust calls notify(): one waiter), "set_closed_no_notify" (_set_closed does not
+\* notify), "no_eof_notify" (_send_eof does not notify - the tree before 7dcb3f9).
+Waiters(X) == {u \in ThreadsOf(X) : pc[u] = "send_wait"}
+NotifyAll(X) == woken \cup Waiters(X)
+EofNotifies(X)    == ~eofSent[X] /\ Mut # "no_eof_notify"          \* _send_eof returns early when EOF was already sent
+ClosedNotifies    == Mut # "set_closed_no_notify"
+\* the woken sender, again under the lock, runs the loop test: window still insufficient -> closed / eof_sent: return 0, else
+\* wait again (Mut = "wait_window_only": the wait re-tests only the window, a close is not looked at);
+\* window there -> it leaves the loop and RE-CHECKS closed / eof_sent before allocating (channel.py: "we have some window
 \* to squeeze into" / if self.closed or self.eof_sent: return 0).  Mut = "no_exit_recheck" drops that re-check.
 ExitRecheck(X) == Mut # "no_exit_recheck" /\ (closed[X] \/ eofSent[X])
 SendWake(t) ==
   LET X == Side(t) IN
-  /\ pc[t] = "send_wait" /\ WakeGuard(t)
-  /\ IF outwin[X] = 0 THEN SendReturns0(t)
-     ELSE IF ExitRecheck(X) THEN SendReturns0(t) ELSE SendReserve(t)
+  /\ pc[t] = "send_wait" /\ t \in woken
+  /\ IF Insufficient(t)
+       THEN IF (closed[X] \/ eofSent[X]) /\ Mut # "wait_window_only"
+              THEN SendReturns0(t)
+              ELSE /\ woken' = woken \ {t} /\ UNCHANGED <<inflight, ctlq, comb>>          \* wait again
+                   /\ UNCHANGED <<pc, op, left, pend, held, calls, ctx, last, spins, chan, tr, robs>> /\ NoEmit
+       ELSE IF ExitRecheck(X) THEN SendReturns0(t) ELSE SendReserve(t)
 
 SendTimer(t) ==         \* the timed wait expires: socket.timeout
   /\ pc[t] = "send_wait" /\ tmo[Side(t)] = "timed" /\ SendRaise(t)
@@ -247,7 +267,7 @@ SendEmit(t) ==          \* after the lock was released: transport._send_user_mes
 SendFin(t) ==           \* HoldBack: _send_done, locked: one hand-over less; the last one takes the queued EOF/CLOSE along
   LET X == Side(t) IN
   /\ pc[t] = "send_fin"
-  /\ inflight' = [inflight EXCEPT ![X] = @ - 1] /\ comb' = comb
+  /\ inflight' = [inflight EXCEPT ![X] = @ - 1] /\ comb' = comb /\ woken' = woken
   /\ IF inflight[X] > 1 \/ ctlq[X] = <<>> \/ Mut = "no_flush"
        THEN ctlq' = ctlq /\ pend' = pend /\ pc' = [pc EXCEPT ![t] = "send_done"]
        ELSE ctlq' = [ctlq EXCEPT ![X] = <<>>] /\ pend' = [pend EXCEPT ![t] = ctlq[X]] /\ pc' = [pc EXCEPT ![t] = "flush_emit"]
@@ -327,7 +347,7 @@ RecvEmit(t) ==
 CombineLocked(t) ==
   LET X == Side(t) IN
   /\ pc[t] = "comb_lock"
-  /\ comb' = [comb EXCEPT ![X] = TRUE] /\ UNCHANGED <<inflight, ctlq>>
+  /\ comb' = [comb EXCEPT ![X] = TRUE] /\ UNCHANGED <<inflight, ctlq, woken>>
   /\ buf' = IF comb[X] THEN buf ELSE [buf EXCEPT ![X] = [out |-> buf[X].out + buf[X].err, err |-> 0]]
   /\ sofar' = [sofar EXCEPT ![X] = IF Mut = "combine_credits" /\ ~comb[X] THEN @ + buf[X].err ELSE @]
   /\ Finish(t, "returned", 0)
@@ -348,6 +368,7 @@ CloseLocked(t) ==
        ELSE /\ eofSent' = [eofSent EXCEPT ![X] = TRUE]
             /\ closed' = [closed EXCEPT ![X] = TRUE] /\ pclosed' = [pclosed EXCEPT ![X] = TRUE]
             /\ UNCHANGED <<outwin, eofRecv, linked, alive, sofar, buf, tmo, inflight, comb>>
+            /\ woken' = IF EofNotifies(X) \/ ClosedNotifies THEN NotifyAll(X) ELSE woken
             /\ IF Held(X)                     \* _send_eof / _close_internal queue behind the data still on its way
                  THEN ctlq' = [ctlq EXCEPT ![X] = @ \o ms] /\ NoEmit /\ Finish(t, "returned", 0) /\ pend' = pend
                ELSE /\ ctlq' = ctlq
@@ -369,6 +390,7 @@ ShutLocked(t) ==        \* _send_eof under the lock
   /\ pc[t] = "shut_lock"
   /\ eofSent' = [eofSent EXCEPT ![X] = TRUE]
   /\ UNCHANGED <<outwin, eofRecv, closed, pclosed, linked, alive, sofar, buf, tmo, inflight, comb>>
+  /\ woken' = IF EofNotifies(X) THEN NotifyAll(X) ELSE woken
   /\ ctlq' = [ctlq EXCEPT ![X] = IF Held(X) THEN @ \o ms ELSE @]
   /\ IF ms = <<>> \/ Held(X) THEN Finish(t, "returned", 0) /\ pend' = pend /\ NoEmit
      ELSE IF FixRace THEN Emit(X, ms, ctx[t].rel) /\ Finish(t, "returned", 0) /\ pend' = pend
@@ -421,7 +443,10 @@ Deliver(X) ==
           [] m.t = "ADJUST" ->                       \* _window_adjust
             /\ wire' = [wire EXCEPT ![Y] = Tail(@)]
             /\ outwin' = [outwin EXCEPT ![X] = @ + m.n]
-            /\ UNCHANGED <<eofSent, eofRecv, closed, pclosed, linked, alive, sofar, buf, tmo, hb, thr, tr, eobs, robs>>
+            /\ IF Mut = "adjust_notify_one" /\ Waiters(X) # {}
+                 THEN \E u \in Waiters(X) : woken' = woken \cup {u}
+                 ELSE woken' = NotifyAll(X)
+            /\ UNCHANGED <<eofSent, eofRecv, closed, pclosed, linked, alive, sofar, buf, tmo, inflight, ctlq, comb, thr, tr, eobs, robs>>
           [] m.t = "EOF" ->                          \* _handle_eof
             /\ wire' = [wire EXCEPT ![Y] = Tail(@)]
             /\ IF eofRecv[X] THEN UNCHANGED <<eofRecv, pclosed>>
@@ -434,6 +459,7 @@ Deliver(X) ==
             /\ linked' = [linked EXCEPT ![X] = (Mut = "no_unlink")]
             /\ closeSeen' = [closeSeen EXCEPT ![X] = TRUE]
             /\ UNCHANGED <<outwin, eofRecv, alive, sofar, buf, tmo, thr, consumed, leaked, inflight, comb>>
+            /\ woken' = IF ~closed[X] /\ (EofNotifies(X) \/ ClosedNotifies) THEN NotifyAll(X) ELSE woken
             /\ ctlq' = [ctlq EXCEPT ![X] = IF Held(X) THEN @ \o ms ELSE @]
             /\ IF FixRace \/ ms = <<>> \/ Held(X)
                  THEN /\ IF alive[X] /\ ~Held(X)
@@ -460,7 +486,8 @@ Lost(X) ==              \* Transport.run ends: active = False; every channel get
   /\ closed' = [closed EXCEPT ![X] = TRUE] /\ pclosed' = [pclosed EXCEPT ![X] = TRUE]
   /\ linked' = [linked EXCEPT ![X] = FALSE]
   /\ UNCHANGED <<outwin, eofSent, eofRecv, sofar, buf, tmo, thr, tr, robs>> /\ NoEmit
-  /\ UNCHANGED hb
+  /\ woken' = IF ~closed[X] /\ ClosedNotifies THEN NotifyAll(X) ELSE woken       \* _unlink: if self.closed: return; _set_closed()
+  /\ UNCHANGED <<inflight, ctlq, comb>>
 
 (* ------------------------------------------------------------------ next-state relation *)
 Step(t) == SendEntry(t) \/ SendWake(t) \/ SendEmit(t) \/ SendFin(t) \/ FlushEmit(t) \/ SendDone(t)
@@ -495,12 +522,12 @@ Conservation == \A X \in Sides : LET Y == Peer(X) IN
           + sofar[X] + PendSum(X, {"ADJUST"}) + SumIf(wire[X], {"ADJUST"})
 \* safety form of Progress: nothing in flight or pending, every reader drained its stream, and a sender still waits
 AtRest(t) == \/ pc[t] = "idle"
-             \/ pc[t] = "send_wait" /\ outwin[Side(t)] = 0 /\ ~closed[Side(t)] /\ ~eofSent[Side(t)]
+             \/ pc[t] = "send_wait" /\ t \notin woken             \* parked: nothing but a notification moves it
              \/ pc[t] = "recv_read" /\ buf[Side(t)][Kind(t)] = 0 /\ ~pclosed[Side(t)]
 Starved(t) == LET X == Side(t)  Y == Peer(X) IN
-  /\ pc[t] = "send_wait" /\ outwin[X] = 0 /\ ~closed[X] /\ ~eofSent[X]
+  /\ pc[t] = "send_wait" /\ t \notin woken /\ tmo[X] = "block" /\ ~closed[X] /\ ~eofSent[X]
   /\ wire[X] = <<>> /\ wire[Y] = <<>> /\ tpc[Y] = "idle" /\ alive[X] /\ alive[Y] /\ ~closed[Y] /\ ~eofRecv[Y]
-  /\ buf[Y].out = 0 /\ buf[Y].err = 0 /\ \A u \in ThreadsOf(Y) : AtRest(u)
+  /\ buf[Y].out = 0 /\ buf[Y].err = 0 /\ tpc[X] = "idle" /\ \A u \in Threads : AtRest(u)
 NoStarvation == \A t \in Threads : ~Starved(t)
 InCall(t)  == pc[t] # "idle"
 Progress   == \A t \in Users : [](InCall(t) /\ op[t] \in SendOps => <>(~InCall(t)))     \* C20 / C25 liveness
@@ -541,7 +568,7 @@ ShouldWake(t) == outwin[Side(t)] > 0 \/ closed[Side(t)] \/ eofSent[Side(t)]
 ShutEndsSends == \A t \in Threads : [](pc[t] # "idle" /\ op[t] \in SendOps /\ (closed[Side(t)] \/ eofSent[Side(t)]) => <>(pc[t] = "idle"))
 NoHangInWindowWait == \A t \in Threads : pc[t] = "send_wait" => ~ShouldWake(t)
 StuckForGood(t) == \/ pc[t] = "idle"
-                   \/ pc[t] = "send_wait" /\ ~WakeGuard(t) /\ tmo[Side(t)] = "block"
+                   \/ pc[t] = "send_wait" /\ t \notin woken /\ tmo[Side(t)] = "block"
                    \/ pc[t] = "recv_read" /\ buf[Side(t)][Kind(t)] = 0 /\ ~pclosed[Side(t)] /\ tmo[Side(t)] = "block"
 Rest == /\ \A t \in Threads : StuckForGood(t)
         /\ \A X \in Sides : tpc[X] = "idle" /\ (wire[X] = <<>> \/ ~alive[Peer(X)])
